@@ -187,7 +187,7 @@ let dispatch mode f =
     let (cs, e) = utf8_decode (unhex data) in
     let tail = match e with EndOk -> "EOF" | EndInvalid -> "UTF8ERR" in
     String.concat "," (List.map (fun c -> Printf.sprintf "%x" (int_of_n c)) cs @ [tail])
-  | "intern", [kind; ops] when kind <> "meta" ->
+  | "intern", [kind; ops] when kind <> "meta" && kind <> "abspath" ->
     let alloc n = n in
     let gen l t =
       (* same generator as the harness: LCG over 64-bit wrapping arithmetic *)
@@ -223,6 +223,23 @@ let dispatch mode f =
       (if !it.i_moved then 1 else 0) stale (List.length bufs)
       (String.concat "," (List.map (fun (h, _) -> Printf.sprintf "%d:%d" (int_of_nat h.h_buf) (int_of_n h.h_start)) !issued))
       (String.concat "," (List.map (fun b -> Printf.sprintf "%d/%d" (int_of_n b.b_cap) (List.length b.b_data)) bufs))
+  | "intern", ["abspath"; ops] ->
+    (* the absolute-path interner: per request the index of the first request with the same normal form and that form *)
+    let seen = ref [] in
+    let out = List.map (fun op ->
+        let body = after 1 op in
+        let j = String.index body ':' in
+        let t = abs_norm (unhex (String.sub body 0 j)) (unhex (after (j + 1) body)) in
+        let rec idx k = function
+          | [] -> seen := !seen @ [t]; k
+          | t' :: r -> if t' = t then k else idx (k + 1) r in
+        (idx 0 !seen, t)) (List.filter (fun x -> x <> "") (split ',' ops)) in
+    (* ids are positions among all requests (not among distinct texts) *)
+    let texts = List.map snd out in
+    let first_pos t = let rec go k = function [] -> k | x :: r -> if x = t then k else go (k + 1) r in go 0 texts in
+    Printf.sprintf "ABS %s LATER %s EQBAD 0"
+      (String.concat "," (List.map (fun (_, t) -> Printf.sprintf "%d=%s" (first_pos t) (hex_of_bytes t)) out))
+      (String.concat "," (List.map hex_of_bytes texts))
   | "intern", ["meta"; ops] ->
     (* handles of metadata sets = identity of their sorted pair lists *)
     let issued = ref [] in
